@@ -26,6 +26,7 @@ use std::path::{Path, PathBuf};
 use std::sync::{Arc, Mutex};
 
 pub mod gen;
+pub mod poolkit;
 pub mod tamper;
 
 pub const KC_SEED: &[u8] = b"grin-verif fixed keychain seed 0001";
@@ -554,6 +555,11 @@ impl Model {
 					}
 				}
 				KernelFeatures::NoRecentDuplicate { relative_height, .. } => {
+					// NRD kernels need header version >= 4: on AutomatedTesting
+					// version = min(5, 1 + height/3), i.e. height >= 9
+					if h < 9 {
+						return Err(ModelReject::Nrd("before the third hard fork".into()));
+					}
 					let rel: u64 = relative_height.into();
 					let ex = k.excess.0.to_vec();
 					if let Some((_, ph)) = m.nrd.iter().rev().find(|(e, _)| *e == ex) {
@@ -614,7 +620,7 @@ pub fn genesis_block() -> Block {
 
 pub struct ChainBox {
 	pub dir: PathBuf,
-	pub chain: Option<Chain>,
+	pub chain: Option<Arc<Chain>>,
 	pub adapter: Arc<RecAdapter>,
 	pub genesis: Block,
 }
@@ -634,7 +640,7 @@ impl ChainBox {
 		.map_err(|e| format!("Chain::init: {:?}", e))?;
 		Ok(ChainBox {
 			dir: dir.to_path_buf(),
-			chain: Some(chain),
+			chain: Some(Arc::new(chain)),
 			adapter,
 			genesis,
 		})
@@ -642,6 +648,11 @@ impl ChainBox {
 
 	pub fn c(&self) -> &Chain {
 		self.chain.as_ref().expect("chain open")
+	}
+
+	/// shared handle (for the transaction pool adapter); must be dropped before reopen
+	pub fn arc(&self) -> Arc<Chain> {
+		self.chain.as_ref().expect("chain open").clone()
 	}
 
 	/// close and reopen from the same directory
@@ -656,7 +667,7 @@ impl ChainBox {
 			None,
 		)
 		.map_err(|e| format!("Chain::init on reopen: {:?}", e))?;
-		self.chain = Some(chain);
+		self.chain = Some(Arc::new(chain));
 		Ok(())
 	}
 
